@@ -9,6 +9,12 @@ CHECKS = {
  'C01': dict(level='proof', design='§4 C01',
              text='Bounded proof: the real builder API, derive(Animate) expansion, TimelineBuilderArguments::from (sort), prepare_frame (binary search) and SubTimeline::{from_keyframes,value_at,get_bounding_frames,get_frame,override_start_value}, interpolate_value are executed symbolically for every keyframe shape up to the bound (which keyframes define which property / carry an easing, with/without start override: enumerated; positions, values, time-scale output: symbolic); one SMT obligation per execution path compares the result with a reference written from the property text (lerp/easing uninterpreted, so the term names the keyframes and the easing used).',
              technique='symbolic execution of rustc MIR (path enumeration) + SMT (z3, QF_UF+FP)'),
+ 'C04': dict(level='model_checking', design='§4 C04',
+             text='Bounded model checking over the real MIR of MappedTimelineAnimator::{new,blend_next_timeline,update_current_values,advance,set_state,is_ended}, MapLike for EnumMap and MergedTimeline::{start_with,update,duration}: every configuration of 3 (thorough 4) states with none/single/merged timelines and every operation sequence up to depth 4 (thorough 5) with SYMBOLIC advance amounts is executed symbolically; at every set_state the solver decides whether current_values can differ before/after (and, for the current state, whether anything in the animator changes). Component timelines are abstract functions obeying the timeline contract proved in C02/C09/C10. Counterexample histories are replayed on the real StateAnimator.',
+             technique='symbolic execution of rustc MIR over bounded operation histories + SMT (z3, EUF+BV+FP)'),
+ 'C05': dict(level='model_checking', design='§4 C05',
+             text='Same encoding as C04; after EVERY operation of every depth-4 (thorough 5) history the solver decides whether current_values, current_state, is_ended or the private time-in-state can differ from a reference animator written from the documented blend/pause/resume rules (the private state is read from the symbolic state: no hook). Counterexamples are replayed natively against a Rust reference that re-evaluates pristine timelines.',
+             technique='symbolic execution of rustc MIR in lock-step with a reference model + SMT (z3)'),
  'C11': dict(level='proof', design='§4 C11',
              text='Bounded proof: for every non-identity insertion order of N<=3 (thorough 4) keyframes at symbolic distinct positions the timeline built by the real builder is compared with the one built in increasing order: structurally identical built values (boundary_times, time scale, every sub-timeline) discharge the obligation; otherwise both are evaluated symbolically at a symbolic time and the solver decides equality of update and metadata.',
              technique='symbolic execution of rustc MIR + structural equality / SMT (z3)'),
